@@ -123,6 +123,12 @@ struct Bounds {
     rel_shifts: Vec<i32>,
     jmax: u32,
     grid: u32,
+    /// rows with x = -(stake/total)·ln(1−phi_f) above this get no offsets below 2^440 (such draws
+    /// need hundreds of Taylor iterations on very large rationals); None = no restriction
+    deep_x_limit: Option<f64>,
+    /// phi_f = 1−2^-52 and 1−2^-53 (x up to 36.7: by far the most expensive rows) are combined with the
+    /// dense totals up to this value only (and with all the large totals)
+    near_one_dense_max: u64,
 }
 
 fn bounds(ctx: &Ctx) -> Bounds {
@@ -131,6 +137,8 @@ fn bounds(ctx: &Ctx) -> Bounds {
             rel_shifts: vec![-1, 0, 1, 3, 8, 16],
             jmax: 2,
             grid: 64,
+            deep_x_limit: Some(8.0),
+            near_one_dense_max: 4,
         },
         Bounds {
             dense_max: 12,
@@ -141,6 +149,8 @@ fn bounds(ctx: &Ctx) -> Bounds {
             rel_shifts: vec![-8, -2, -1, 0, 1, 2, 3, 4, 6, 8, 12, 16, 20, 24],
             jmax: 3,
             grid: 256,
+            deep_x_limit: None,
+            near_one_dense_max: 12,
         },
     )
 }
@@ -205,7 +215,11 @@ fn build_cell(phi: f64, total: u64, stakes: &[u64], extra_draws: &[BigUint], b: 
             draws.push(lo.clone().min(max.clone()));
             draws.push(hi.clone().min(max.clone()));
             let rel = b.rel_shifts.iter().map(|r| (512 + band + r).clamp(0, 511) as u32);
+            let shallow_only = b.deep_x_limit.is_some_and(|l| x_lo.is_finite() && x_lo > l);
             for s in b.shifts.iter().copied().chain(rel) {
+                if shallow_only && s < 440 {
+                    continue;
+                }
                 for j in 1..=b.jmax {
                     let off = BigUint::from(j) << s;
                     if lo >= off {
@@ -746,6 +760,8 @@ pub fn run(ctx: &Ctx) -> ! {
             "stakes": format!("0..=total for total <= {}, else {{0, 1, total/3, total/2, total-1, total}}", b.dense_max),
             "threshold_offsets": format!("T -/+ j*2^s, j in 1..={}, s in {:?} (draws are 512-bit; the band is 2^468)", b.jmax, b.shifts),
             "uniform_grid_points": b.grid,
+            "offsets_below_2^440_skipped_for_rows_with_x_above": b.deep_x_limit,
+            "phi_f_1-2^-52_and_1-2^-53_only_with_dense_totals_up_to": b.near_one_dense_max,
             "band": "2^-44 * min(1, 2*max(stake/total, x)) rounded up to a power of two, x = -(stake/total)*ln(1-phi_f)",
         }),
     );
@@ -813,6 +829,10 @@ pub fn run(ctx: &Ctx) -> ! {
     let mut keys = vec![];
     for total in totals(b.dense_max) {
         for phi in phis(thorough) {
+            let near_one = phi < 1.0 && 1.0 - phi <= f64::EPSILON;
+            if near_one && total > b.near_one_dense_max && total <= b.dense_max {
+                continue;
+            }
             keys.push((phi, total));
         }
     }
